@@ -162,6 +162,7 @@ class Engine:
             if i >= self.depth:
                 self.solver.push()
                 self.depth += 1
+                self.last_sat = False
                 self.solver.add(cond if choice else z3.Not(cond))
             self.trail.append((choice, has_alt))
             return choice
@@ -370,8 +371,10 @@ class Engine:
             # not.  Fork on the class and use a placeholder of the same class.
             if self.branch(term < 0x80):
                 pool = [chr(c) for c in range(14, 28)]
-            else:
+            elif self.branch(term <= 0xFF):
                 pool = [chr(c) for c in range(0x80, 0xA0) if c != 0x85]
+            else:
+                pool = [chr(c) for c in range(0x100000, 0x100040)]  # beyond Latin-1: fails latin-1/ascii encoding like the real character
             used = [c for c in self.chars if c in pool]
             if len(used) >= len(pool):
                 raise self._raise(Unsupported("too many symbolic characters rendered on one path (c1 alphabet)"))
